@@ -303,6 +303,27 @@ func cmdCheck(args []string) {
 			json.Unmarshal([]byte(br.FirstFail), &fi)
 			report("bounded:"+br.Name, map[string]any{"kind": "bounded", "reason": "the real code violates the contract on an input of the bounded family", "failures": br.Failures, "cases": br.Cases, "failing_input": fi, "bound": br.Bound}, false)
 		}
+		// individually named inputs: each failing one is its own obligation (so that a recorded finding names exactly
+		// the input that fails and any other failing input is still a violation)
+		for _, nc := range br.Named {
+			if nc.OK {
+				continue
+			}
+			name := "bounded:" + br.Name + ":" + nc.Name
+			var kf *knownFinding
+			for _, k := range known {
+				if k.Property == *prop && k.Obligation == name {
+					kf = k
+				}
+			}
+			if kf != nil {
+				kf.used = true
+				knownN++
+				knownLines = append(knownLines, fmt.Sprintf("KNOWN-FINDING: property=%s %s: %s", *prop, name, kf.Text))
+				continue
+			}
+			report(name, map[string]any{"kind": "bounded", "reason": "the real code violates the contract on this named input", "failing_input": nc.Detail, "bound": br.Bound}, false)
+		}
 	}
 	if claimed == 0 && violations == 0 {
 		report("no-obligations", map[string]any{"reason": "vacuity: no obligation was generated for this property"}, true)
